@@ -438,6 +438,9 @@ def cross_process(out, tier, seed):
         bad = [v for v in results.values() if "BAD-CARRIED" in v]
         if bad:
             out.violations.append({"oracle": "a switch referred to by number keeps that number in the saved triggers", "scenario": scen, "got": bad[0][-80:]})
+        bad = [v for v in results.values() if "BAD-LOCATIONS" in v]
+        if bad:
+            out.violations.append({"oracle": "every authored location reference resolves to the rectangle it was authored with", "scenario": scen, "got": bad[0][-120:]})
         vals = set(results.values())
         if len(vals) != 1:
             a, b = sorted(vals)[:2]
